@@ -113,7 +113,7 @@ fn key_strategy() -> BoxedStrategy<String> {
     prop_oneof![
         6 => "[a-z]{1,6}",
         // keys that differ only in letter case are different keys
-        3 => select(vec!["path", "Path", "PATH", "k", "K", "key", "Key", "é", "É"]).prop_map(|s| s.to_string()),
+        3 => select(vec!["path", "Path", "PATH", "k", "K", "key", "Key", "é", "É", "k ", " k", " ", "tab\t", "k\u{a0}"]).prop_map(|s| s.to_string()),
         2 => vec(select(vec!['k', ';', ' ', 'é', '\u{13d}', '.', 'K', '\u{ff1d}']), 1..5).prop_map(|v| v.into_iter().collect::<String>()),
         1 => "[a-z]{200,250}",
     ]
@@ -174,6 +174,19 @@ fn check_attrs(input: &AttrIn, case: &mut Case) -> Result<(), Fail> {
     let txt = txt.map_err(|e| Fail::new("c19:attrs-failed", format!("TXT::try_from(map) = {:?}", e)))?;
     let back = lib("TXT::attributes", || txt.attributes())?;
     ensure!(back == map, "c19:attrs-roundtrip", "attributes() returns {:?}, the map was {:?}", back, map);
+    // the same map through the conversion helper of the discovery crate (InstanceInformation::into_records)
+    {
+        let mut info = simple_mdns::InstanceInformation::new("i".to_string());
+        for (k, v) in &map {
+            info = info.with_attribute(k.clone(), v.clone());
+        }
+        let owner = Name::new_unchecked("i._srv._tcp.local");
+        let recs = lib("InstanceInformation::into_records", || info.into_records(&owner, 60))?.map_err(|e| Fail::new("c19:into-records", format!("{:?}", e)))?;
+        let txts: Vec<&TXT> = recs.iter().filter_map(|r| if let RData::TXT(t) = &r.rdata { Some(t) } else { None }).collect();
+        ensure!(txts.len() == 1, "c19:into-records", "{} TXT records for one attribute map", txts.len());
+        let via = lib("TXT::attributes", || txts[0].attributes())?;
+        ensure!(via == map, "c19:attrs-roundtrip-via-instance", "the attribute map {:?} comes back from into_records as {:?}", map, via);
+    }
     // the same after a wire crossing (only for non-empty maps: an empty TXT is one empty string on the wire)
     if !map.is_empty() {
         let pieces = txt_pieces(&txt)?;
